@@ -1225,6 +1225,9 @@ func (dsc *dataStoreCommand) lpop(keyName string, count int) (values [][]byte, e
 		return
 	}
 
+	if count > list.count {
+		count = list.count
+	}
 	values = make([][]byte, 0, count)
 
 	for ; count > 0; count-- {
@@ -1330,6 +1333,9 @@ func (dsc *dataStoreCommand) rpop(keyName string, count int) (values [][]byte, e
 		return
 	}
 
+	if count > list.count {
+		count = list.count
+	}
 	values = make([][]byte, 0, count)
 
 	for ; count > 0; count-- {
@@ -1578,7 +1584,7 @@ func (dsc *dataStoreCommand) lmpop(keyNames []string, left bool, count int) (out
 	defer dsc.unlock()
 
 	var result []any
-	elements := make([]any, 0, count)
+	elements := []any{}
 
 	for _, keyName := range keyNames {
 		list, err := dsc.getListUnlocked(keyName)
